@@ -191,7 +191,7 @@ def _obj_cases(draw):
         ratios.append(ratios[-1] * m)
     return {"rec": spec, "dt": dt, "ratios": ratios, "lead0": draw(st.integers(0, 3)) == 0,
             "min_dt_ratio": draw(st.sampled_from([1, 2, 4, 8])), "xi": draw(st.sampled_from([0.05, 0.0, 0.2, 0.5])),
-            "via": draw(st.sampled_from(["ctor", "gen", "gen-default-xi"]))}
+            "via": draw(st.sampled_from(["ctor", "gen", "gen-default-xi", "cached-then-ratio", "cached-then-ratio"]))}
 
 
 def _refined(a, k, hold):
@@ -225,6 +225,12 @@ def object_api(case, ctx):
     elif via == "gen":
         asig = ctx.lib(eqsig.AccSignal, a, dt)
         ctx.lib(asig.gen_response_spectrum, response_times=P, xi=xi, min_dt_ratio=ratio)
+    elif via == "cached-then-ratio":
+        # spectra are first read lazily (default ratio 4) and only then requested at another min_dt_ratio / damping, without
+        # passing the periods again: the request must be honoured, not answered from the cache
+        asig = ctx.lib(eqsig.AccSignal, a, dt, response_times=P)
+        _ = ctx.lib(lambda: asig.s_a)
+        ctx.lib(asig.generate_response_spectrum, xi=xi, min_dt_ratio=ratio)
     else:
         xi = 0.05
         asig = ctx.lib(eqsig.AccSignal, a, dt)
